@@ -58,7 +58,19 @@ impl Handler for Server {
     }
 
     fn on_message(&mut self, msg: Message) -> ws::Result<()> {
-        let message = msg.as_text().unwrap();
+        // A binary frame whose bytes are not UTF-8 is not a command: answer it, do not take the
+        // (single) WebSocket thread down
+        let message = match msg.as_text() {
+            Ok(message) => message,
+            Err(e) => {
+                log::warn!("ws_ops::on_message::not a text message {}", e);
+                match self.client.sender.try_send(format!("error invalid message \n")) {
+                    Ok(_) => {}
+                    Err(e) => log::warn!("ws_ops::on_message::try_send::Error {}", e),
+                }
+                return Ok(());
+            }
+        };
         log::debug!(
             "[{}] Server got message '{}'. ",
             thread_id::get(),
